@@ -2,6 +2,7 @@ package format
 
 import (
 	"bytes"
+	"encoding/json"
 	"fmt"
 	"io"
 	"sort"
@@ -225,7 +226,38 @@ func (f *Formatter) formatArgumentList(lists ast.ArgumentList) {
 
 func (f *Formatter) formatArgument(arg *ast.Argument) {
 	f.writeWord(arg.Name).noPadding().writeString(":").needPadding()
-	f.writeString(arg.Value.String())
+	f.writeString(valueString(arg.Value))
+}
+
+// valueString prints a value like ast.Value.String, except that string literals are
+// quoted with GraphQL escapes only: strconv.Quote, used there, renders control and
+// other non printable characters as \x01 or \U0001f600, which a GraphQL parser rejects
+func valueString(v *ast.Value) string {
+	if v == nil {
+		return v.String()
+	}
+	switch v.Kind {
+	case ast.StringValue, ast.BlockValue:
+		// JSON string escapes (\", \\, \n, \uXXXX ...) are a subset of the GraphQL ones
+		b, err := json.Marshal(v.Raw)
+		if err != nil {
+			return v.String()
+		}
+		return string(b)
+	case ast.ListValue:
+		var val []string
+		for _, elem := range v.Children {
+			val = append(val, valueString(elem.Value))
+		}
+		return "[" + strings.Join(val, ",") + "]"
+	case ast.ObjectValue:
+		var val []string
+		for _, elem := range v.Children {
+			val = append(val, elem.Name+":"+valueString(elem.Value))
+		}
+		return "{" + strings.Join(val, ",") + "}"
+	}
+	return v.String()
 }
 
 func (f *Formatter) walkArgumentList(s ast.SelectionSet) map[string]string {
